@@ -222,9 +222,20 @@ def run_suites(ctx):
                     lv = {t: l for t, l, y in flat}
                     bad = "--all did not select %r" % (missing,)
                     sig = "all-level-above-maxsize" if all(lv[t] > MAXSIZE for t, _ in missing) else "selection"
+        if bad is None and not (at_level == MAXSIZE and only is None):
+            # find_tests registers exactly the selected tests, each under its layer (insertion order of first use)
+            want_groups = {}
+            for spec in specs:
+                for tid, lyr in statement_selected(spec, at_level, only, set(accepted)):
+                    want_groups.setdefault(lyr, []).append(tid)
+            got_groups = {k: list(ts) for k, ts in groups}
+            if got_groups != want_groups:
+                bad = "find_tests registers %r, the statement selects %r" % (sorted(got_groups.items(), key=str),
+                                                                              sorted(want_groups.items(), key=str))
+                sig = "registered"
         if bad:
             ctx.violation(bad, case, signature=sig)
-            if sig == "selection":
+            if sig in ("selection", "registered"):
                 continue
         if "error" in ans:
             ctx.drift("suites", "driver error %s" % ans["error"], case)
